@@ -170,7 +170,7 @@ def run(ck):
     daily(ck, S, DF)
 
 
-def daily(ck, S, DF):
+def daily(ck, S, DF, RID="C09-O5"):
     F = ck.facts
     cd = S.m["checkDailyRotation"]
     ri = S.m["rotateIfNeeded"]
@@ -202,7 +202,7 @@ def daily(ck, S, DF):
             keep = g.projector(atom)
             table[(differs, size)] = (rs_ in g.live(keep), g.must_pass({rs_}, keep=keep))
     ok = all(table[(d, s)] == ((d and s > 0), (d and s > 0)) for d in (False, True) for s in (0, 1, 50))
-    ck.ob("C09-O5", sitestr(cd, rot[0]), ok, "daily rotation iff the record's date differs from the file's date and the file is non-empty (6/6 cases)" if ok else "daily rotation guard: %s" % table, key="checkDailyRotation|guard")
+    ck.ob(RID, sitestr(cd, rot[0]), ok, "daily rotation iff the record's date differs from the file's date and the file is non-empty (6/6 cases)" if ok else "daily rotation guard: %s" % table, key="checkDailyRotation|guard")
     # message date = lmsg.time().date()
     gi = S.g(ri)
     calls = [n for n in ri.calls(RP + "::checkDailyRotation")]
@@ -211,7 +211,7 @@ def daily(ck, S, DF):
     src = deref_local(ri, arg)
     names, root = call_chain(src)
     okd = [x.split("::")[-1] for x in names] == ["date", "time"] and isinstance(root, dict) and is_ref_to(root, ri.params[0]["decl"])
-    ck.ob("C09-O5", sitestr(ri, calls[0]), okd, "the record's date is lmsg.time().date()" if okd else "the record's date is %s" % describe(src), key="rotateIfNeeded|message-date")
+    ck.ob(RID, sitestr(ri, calls[0]), okd, "the record's date is lmsg.time().date()" if okd else "the record's date is %s" % describe(src), key="rotateIfNeeded|message-date")
     # with daily rotation every path dates the file with the record's date, after all rotation checks
     isdaily = lambda n: is_this_field(n, RP + "::m_rotationDaily")
     keep = gi.projector(atom_eq(isdaily, True))
@@ -230,11 +230,11 @@ def daily(ck, S, DF):
         must = gi.must_pass(a_sites, keep=keep)
         later = [c for c in ri.calls() if c.get("fn") in F.fns and may_write(c) and any(gi.can_reach(s, gi.site_of(c), keep=keep) for s in a_sites)]
         ok = must and not later
-        ck.ob("C09-O5", sitestr(ri, asg[0]), ok, "with daily rotation the active file is dated with the record's date on every path, after all rotation checks" if ok else
+        ck.ob(RID, sitestr(ri, asg[0]), ok, "with daily rotation the active file is dated with the record's date on every path, after all rotation checks" if ok else
               "file date := record date: on-every-path=%s, re-dated afterwards by %s" % (must, [describe(c)[:40] for c in later]), key="rotateIfNeeded|stale-file-date")
         # the daily check itself happens before the re-dating (it needs the old date)
         ok2 = all(gi.dominated(s, {gi.site_of(calls[0])}, keep=keep) for s in a_sites)
-        ck.ob("C09-O5", sitestr(ri, asg[0]), ok2, "the daily check sees the previous date (the re-dating follows it)", key="rotateIfNeeded|redate-before-check")
+        ck.ob(RID, sitestr(ri, asg[0]), ok2, "the daily check sees the previous date (the re-dating follows it)", key="rotateIfNeeded|redate-before-check")
     else:
         # older idiom: re-dating inside checkDailyRotation only
         inner = [n for n in cd.calls() if n.get("op") == "=" and is_this_field(n["args"][0], DF) and is_ref_to(n["args"][1], md)]
@@ -243,7 +243,7 @@ def daily(ck, S, DF):
             keepd = g.projector(lambda n: (True if n.get("op") == "!=" else False) if ne(n) else None)
             stale = not g.must_pass(set(g.sites_of_nodes(inner)), keep=keepd)
         redated_by_clock = any(is_call(skip_copies(n["args"][1]), "QDate::currentDate") for f, n0, how in field_writes(F, DF) if f.id == S.m["rotate"].id for n in [f.nodes[f.parent[n0["id"]]]] if n.get("op") == "=")
-        ck.ob("C09-O5", sitestr(cd), not (stale or redated_by_clock), "file date follows the record date" if not (stale or redated_by_clock) else
+        ck.ob(RID, sitestr(cd), not (stale or redated_by_clock), "file date follows the record date" if not (stale or redated_by_clock) else
               "a record whose date differs from the file's date can be written without re-dating the file (empty file: %s; size rotation re-dates by the clock: %s): days share a file and the rotated name carries the wrong day" % (stale, redated_by_clock),
               key="rotateIfNeeded|stale-file-date")
     # init(): start-up date
@@ -255,7 +255,7 @@ def daily(ck, S, DF):
     while src0.get("k") == "cast":
         src0 = skip_copies(src0.get("e"))
     okf = src0.get("k") == "construct" and src0.get("args") and is_call(src0["args"][0], ("QFile::fileName", "QFileDevice::fileName")) and S.is_active_file(skip_copies(src0["args"][0]).get("obj"))
-    ck.ob("C09-O5", sitestr(it), okf, "start-up inspects the active file", key="init|file")
+    ck.ob(RID, sitestr(it), okf, "start-up inspects the active file", key="init|file")
     asgs = [n for n in it.calls() if n.get("op") == "=" and is_this_field(n["args"][0], DF)]
     ex = lambda n: is_call(n, "QFileInfo::exists") and is_ref_to(skip_copies(n).get("obj"), fd)
     def szc(n):
@@ -282,7 +282,7 @@ def daily(ck, S, DF):
                     vals.append("mtime" if [x.split("::")[-1] for x in nm] == ["date", "lastModified"] and is_ref_to(root, fd) else "today" if is_call(r, "QDate::currentDate") else describe(r))
             res[(e_, sz)] = vals
     ok = res[(True, 7)] == ["mtime"] and all(res[k] == ["today"] for k in res if k != (True, 7))
-    ck.ob("C09-O5", sitestr(it), ok, "start-up: file date = last-modified date iff the file exists and is non-empty, else today" if ok else "start-up file date: %s" % res, key="init|startup-date")
+    ck.ob(RID, sitestr(it), ok, "start-up: file date = last-modified date iff the file exists and is non-empty, else today" if ok else "start-up file date: %s" % res, key="init|startup-date")
 
 
 def next_index(ck, S, RULE):
